@@ -19,10 +19,22 @@ def one(d0):
     finally:
         shutil.rmtree(d, ignore_errors=True)
     return d0, out
-bad = 0
+import json
+bad = und = 0
 with ThreadPoolExecutor(max_workers=7) as ex:
     for d0, out in ex.map(one, dirs):
+        try:
+            expect = json.load(open(os.path.join(d0, "meta.json"))).get("expect_check", "silent")
+        except Exception:
+            expect = "silent"
+        if expect == "undecided":
+            # recorded limit of the analyser: UNDECIDED (exit 2) is expected, a VIOLATION (exit 1) never
+            und += 1
+            if any(v[0] == 1 for v in out.values() if isinstance(v, tuple)) or "apply" in out:
+                bad += 1
+                print(os.path.basename(d0), "VIOLATION on a behaviour-preserving variant", out)
+            continue
         if out:
             bad += 1
             print(os.path.basename(d0), out)
-print("refactorings:", len(dirs), "with a non-zero check:", bad)
+print("refactorings:", len(dirs), "(of which %d recorded as undecided)" % und, "with a non-zero check:", bad)
